@@ -43,26 +43,34 @@ def parse_cache(p):
         f = e.split(":")
         wg = f[1].split("/")
         users[f[0]] = dict(want=wg[0], given=wg[1], r=int(f[2][1:]), v=int(f[3][1:]), d=int(f[4][1:]), o=int(f[5][1:]),
-                           priv=f[6][2:] if len(f) > 6 else "-", deleted=e.endswith(":deleted"))
+                           priv=f[6][2:] if len(f) > 6 else "-", deleted=":deleted" in e[e.find(":p="):], chan=e.endswith(":chan"))
     sess = {}
+    chansess = set()
     for e in _bracket(p, "sess").split():
-        s, u = e.split(":")
-        sess[s] = u
+        x = e.split(":")
+        sess[x[0]] = x[1]
+        if len(x) > 2 and x[2] == "chan":
+            chansess.add(x[0])
     acs = d.get("acs", "_/_").split("/")
     return dict(name=ws[1], last=int(d["last"]), delid=int(d["del"]), owner=d["owner"], auth=acs[0], anon=acs[1], pub=d.get("pub"),
-                tr=d.get("tr"), tags=d.get("tags"), inactive=" inactive" in head, readonly=" readonly" in head, users=users, sess=sess)
+                tr=d.get("tr"), tags=d.get("tags"), inactive=" inactive" in head, readonly=" readonly" in head, users=users, sess=sess,
+                chansess=chansess)
 
 
 def parse_store(p):
     ws = p.split(" ")
     head = p.split(" subs[")[0]
     d = _kv(head.split(" "))
-    subs = {}
-    for e in _bracket(p, "subs").split():
-        f = e.split(":")
-        wg = f[1].split("/")
-        subs[f[0]] = dict(want=wg[0], given=wg[1], r=int(f[2][1:]), v=int(f[3][1:]), d=int(f[4][1:]),
-                          priv=f[5][2:] if len(f) > 5 else "-", deleted=e.endswith(":deleted"))
+    def rows(name):
+        out = {}
+        for e in _bracket(p, name).split():
+            f = e.split(":")
+            wg = f[1].split("/")
+            out[f[0]] = dict(want=wg[0], given=wg[1], r=int(f[2][1:]), v=int(f[3][1:]), d=int(f[4][1:]),
+                             priv=f[5][2:] if len(f) > 5 else "-", deleted=e.endswith(":deleted"))
+        return out
+    subs = rows("subs")
+    csubs = rows("csubs")         # subscriptions of channel readers (a channel-enabled topic only)
     msgs = []
     for e in _bracket(p, "msgs").split():
         f = e.split(":")
@@ -77,7 +85,8 @@ def parse_store(p):
         dl.append(dict(id=int(f[0]), user=f[1], lo=int(f[2]), hi=int(f[3])))
     acs = d.get("acs", "_/_").split("/")
     return dict(name=ws[1], seq=int(d["seq"]), delid=int(d["del"]), owner=d["owner"], auth=acs[0], anon=acs[1], pub=d.get("pub"),
-                tr=d.get("tr"), tags=d.get("tags"), state=int(d.get("state", "0")), subs=subs, msgs=msgs, dellog=dl)
+                tr=d.get("tr"), tags=d.get("tags"), state=int(d.get("state", "0")), subs=subs, msgs=msgs, dellog=dl,
+                chan=" csubs[" in p, csubs=csubs)
 
 
 class Line:
@@ -133,9 +142,15 @@ class Case:
         # `U2` which goes to a session of U1 is read as a frame about P:U1:U2. A frame that names the topic by anything else
         # (the recipient's own name, no name) is left as it is, so that the naming rules of the monitors see it.
         self.ops = []
+        self.via_chn = set()       # indices of requests made under the `chn` spelling
         self.p2p_arg = {}          # index -> the name the client used
         for i, o in enumerate(ops):
             w = o.split(" ")
+            if w[0] in self.P2P_OPS and len(w) > 2 and w[2].startswith("chn:"):
+                # the channel spelling of a group name: the monitors work on the group name; how the request and each frame spelled
+                # it is kept aside (`via_chn`, the `@chn` mark at the end of a frame)
+                self.via_chn.add(i)
+                w[2] = w[2][4:]
             if w[0] in self.P2P_OPS and len(w) > 2 and re.fullmatch(r"U\d+", w[2]):
                 act = self.actor(w)
                 own = act[0] if act else self.sess.get(w[1], {}).get("user", "")
@@ -156,6 +171,9 @@ class Case:
                 idx = 2 if fw[0] == "ctrl" else 1
                 if len(fw) > idx and re.fullmatch(r"U\d+", fw[idx]) and own and fw[idx] != own:
                     fw[idx] = "P:" + ":".join(sorted([own, fw[idx]]))
+                if len(fw) > idx and fw[idx].startswith("chn:"):
+                    fw[idx] = fw[idx][4:]
+                    fw.append("@chn")
                 nf.append((sid, " ".join(fw)))
             ln.frames = nf
 
@@ -338,13 +356,15 @@ def mon_C02(case):
             out.append((i, f"C02 publish to {t} acknowledged although the topic was not loaded before the request"))
             continue
         noecho = _kv(w[4:]).get("noecho") == "1"
+        ischan = bool(pre.store.get(t, {}).get("chan"))
         expect = []
         for sid, uid in c["sess"].items():
             u = c["users"].get(uid)
-            if u is None or u["deleted"]:
-                continue
-            if not has(eff(u["want"], u["given"]), "R"):
-                continue
+            if sid not in c["chansess"]:           # a session attached as a channel reader gets the message whatever the modes
+                if u is None or u["deleted"]:
+                    continue
+                if not has(eff(u["want"], u["given"]), "R"):
+                    continue
             if noecho and sid == w[1]:
                 continue
             expect.append(sid)
@@ -363,10 +383,15 @@ def mon_C02(case):
             fw = f.split(" ")
             if fw[1] != t:
                 out.append((i, f"C02 copy for {sid} names topic {fw[1]} instead of {t}"))
+            ru = c["users"].get(c["sess"].get(sid, ""), {})
+            if (bool(ru.get("chan")) or sid in c["chansess"]) != (fw[-1] == "@chn"):
+                out.append((i, f"C02 [chan-name] copy for {sid} of {'a channel reader' if (ru.get('chan') or sid in c['chansess']) else 'a subscriber'} spells the topic "
+                               f"{'chn:' + t if fw[-1] == '@chn' else t}"))
             if k.get("content") != w[3]:
                 out.append((i, f"C02 copy for {sid} carries content {k.get('content')} instead of {w[3]}"))
-            if k.get("from") != act[0]:
-                out.append((i, f"C02 copy for {sid} names author {k.get('from')} instead of {act[0]}"))
+            author = "-" if sid in c["chansess"] else act[0]          # withheld from channel readers
+            if k.get("from") != author:
+                out.append((i, f"C02 copy for {sid} names author {k.get('from')} instead of {author}"))
             if int(k.get("seq", "0")) != q:
                 out.append((i, f"C02 copy for {sid} carries number {k.get('seq')} instead of the acknowledged {q}"))
             if k.get("head") != hd:
@@ -376,7 +401,7 @@ def mon_C02(case):
             lastseq[(sid, t)] = q
         # push
         want_push = sorted(u for u, p in c["users"].items() if not p["deleted"] and has(eff(p["want"], p["given"]), "R")
-                           and has(eff(p["want"], p["given"]), "P") and u != "-")
+                           and has(eff(p["want"], p["given"]), "P") and u != "-" and not p.get("chan"))
         pushes = [p for p in ln.pushes if p.get("what") == "msg"]
         if len(pushes) > 1:
             out.append((i, f"C02 {len(pushes)} push notifications for one message"))
@@ -384,7 +409,7 @@ def mon_C02(case):
         if gotp != want_push:
             out.append((i, f"C02 push for message {q} of {t} addressed to {gotp} instead of the readers with presence {want_push}"))
         for p in pushes:
-            if p.get("topic") != t or p.get("seq") != str(q) or p.get("chan", "-") != "-":
+            if p.get("topic") != t or p.get("seq") != str(q) or p.get("chan", "-") != (t if ischan else "-"):
                 out.append((i, f"C02 push for message {q} of {t} carries topic={p.get('topic')} seq={p.get('seq')} chan={p.get('chan')}"))
     return out
 
@@ -610,10 +635,13 @@ def mon_C08(case):
             if len(ow) == 1 and c["owner"] != ow[0]:
                 diffs.append(f"owner {c['owner']} vs stored owner {ow[0]}")
             live = {u: s for u, s in row["subs"].items() if not s["deleted"]}
+            clive = {u: s for u, s in row.get("csubs", {}).items() if not s["deleted"]}
             for u in sorted(set(live) | set(c["users"])):
                 cu, su = c["users"].get(u), live.get(u)
                 if cu is not None and cu["deleted"]:
                     cu = None
+                if cu is not None and cu.get("chan"):
+                    su = clive.get(u)          # cached only while attached: compared with the row under the channel name
                 if cu is None or su is None:
                     if not (cu is None and su is None):
                         diffs.append(f"subscriber {u}: in memory {'yes' if cu else 'no'}, stored {'yes' if su else 'no'}")
@@ -642,13 +670,18 @@ def mon_C08(case):
                         and pre is not None and d.startswith("private data of ")
                         and (d.split(" ")[3].rstrip(":") == (_kv(w[3:]).get("user") or act[0] if w[0] == "setsub" else act[0])
                              or (t.startswith("P:") and w[0] == "sub"))      # a p2p load re-creates the other participant's subscription
-                        and pre.store.get(t, {}).get("subs", {}).get(d.split(" ")[3].rstrip(":"), {}).get("deleted")):
+                        and (pre.store.get(t, {}).get("subs", {}).get(d.split(" ")[3].rstrip(":"), {}).get("deleted")
+                             or pre.store.get(t, {}).get("csubs", {}).get(d.split(" ")[3].rstrip(":"), {}).get("deleted"))):
                     out.append((i, f"C08 [resub-private] re-subscribing to {t} keeps the stored private data of the soft-deleted row: {d}"))
                 elif (w[0] == "setdesc" and len(w) > 2 and w[2] == t and act is not None and attached and pre is not None
                         and case.sess[w[1]]["lvl"] == "root" and act[0] not in pre.cache.get(t, {}).get("users", {})
                         and d == f"subscriber {act[0]}: in memory yes, stored no"):
                     out.append((i, f"C08 [phantom-sub] a root session attached to {t} sets private data as {act[0]} who is not subscribed: "
                                    f"the topic caches a subscriber that the store does not have"))
+                elif (re.match(r"(read|received|delete) mark of (U\d+):", d)
+                        and c["users"].get(re.match(r"(read|received|delete) mark of (U\d+):", d).group(2), {}).get("chan")):
+                    out.append((i, f"C08 [chan-marks] the marks of an attached channel reader are kept in the store only, the cached ones stay "
+                                   f"as they were when the reader attached: {d}"))
                 elif (w[0] == "note" and len(w) > 3 and w[3] == "read" and act is not None and ln.calls == ["SubsUpdate"]
                         and d.startswith(f"received mark of {act[0]}:")):
                     out.append((i, f"C08 [read-raises-recv] a read note raised the received mark of {act[0]} on {t} in memory only: {d}"))
@@ -734,6 +767,8 @@ def mon_C09(case):
                 rp = c["users"].get(ru) if ru else None
                 if sid == w[1]:
                     out.append((i, f"C09 note relayed back to the originating session {sid}"))
+                elif sid in c["chansess"]:
+                    out.append((i, f"C09 [chan-info] note relayed to {sid}, a session attached as a channel reader"))
                 elif ru is None or rp is None or not has(eff(rp["want"], rp["given"]), "R"):
                     out.append((i, f"C09 note relayed to {sid} which is not an attached session of a reader"))
                 elif what == "kp" and ru == act[0]:
@@ -799,6 +834,14 @@ def mon_C05(case):
             old = (pre.cache.get(t, {}).get("users", {}).get(src) if pre else None)
             new = ln.cache.get(t, {}).get("users", {}).get(src)
             ow, og = (old["want"], old["given"]) if old and not old["deleted"] else ("N", "N")
+            if old is None and pre is not None and t not in pre.cache:
+                # the topic was loaded by this request: what the subscriber had is what was stored
+                srow = pre.store.get(t, {}).get("subs", {}).get(src)
+                if srow and not srow["deleted"]:
+                    ow, og = srow["want"], srow["given"]
+            if old is None and new is not None and new.get("chan"):
+                prow = (pre.store.get(t, {}).get("csubs", {}).get(src) if pre else None)
+                ow, og = (prow["want"] if prow and not prow["deleted"] else "JRP"), "JRP"
             nw, ng = (new["want"], new["given"]) if new and not new["deleted"] else ("N", "N")
             gw, gg = apply_delta(ow, dw), apply_delta(og, dg)
             norm = lambda m: "".join(c for c in LETTERS if c in m) or "N"
@@ -895,7 +938,8 @@ def mon_C04(case):
             for q in sorted(set(want) - set(got)):
                 out.append((i, f"C04 history of {t} for {act[0]} lacks message {q} which is stored, in range and not deleted for this user"))
             for q in set(got) & set(want):
-                if got[q].get("content") != want[q]["content"] or got[q].get("from") != want[q]["sender"] or \
+                sender = "-" if i in case.via_chn else want[q]["sender"]     # the author is withheld from channel readers
+                if got[q].get("content") != want[q]["content"] or got[q].get("from") != sender or \
                         got[q].get("head", "-").replace("=", "=") != want[q]["head"]:
                     out.append((i, f"C04 message {q} of {t} returned as from={got[q].get('from')} head={got[q].get('head')} content={got[q].get('content')} "
                                    f"but stored as from={want[q]['sender']} head={want[q]['head']} content={want[q]['content']}"))
